@@ -36,3 +36,17 @@ func TestVerifReproC41FragmentHeadContext(t *testing.T) {
 		}
 	}
 }
+
+// ParseFragment with an svg or math context element: "</html>" pops the synthetic html root in parseForeignContent
+// (the end tag matches the root's name; the namespace is not checked), and the following text token makes inBodyIM
+// dereference the top of the empty stack (recovered by parse() and returned as an error).
+func TestVerifReproC41FragmentForeignEndHTML(t *testing.T) {
+	for _, c := range []*html.Node{
+		{Type: html.ElementNode, Data: "svg", DataAtom: atom.Svg, Namespace: "svg"},
+		{Type: html.ElementNode, Data: "math", DataAtom: atom.Math, Namespace: "math"},
+	} {
+		if _, err := html.ParseFragment(strings.NewReader("</html>x"), c); err != nil {
+			t.Errorf("ParseFragment(%q, <%s>): %v", "</html>x", c.Data, err)
+		}
+	}
+}
